@@ -1360,7 +1360,7 @@ impl<'a> Engine<'a> {
                     let mut ws = ws;
                     ws.sort_by(|a, b| a.0.cmp(&b.0));
                     ws.dedup_by(|a, b| a.0 == b.0);
-                    if let Some(fid) = self.session_writes(&[], &ws) {
+                    if let Some(fid) = self.session_to_fin_with(&[], 4, 0, Some(ws)) {
                         self.commit_fin(fid, false);
                     }
                 }
@@ -1388,13 +1388,13 @@ impl<'a> Engine<'a> {
                             (k, Some(gen_value(&mut self.rng, false)))
                         })
                         .collect();
-                    if let Some(fid) = self.session_writes(&[], &ws) {
+                    if let Some(fid) = self.session_to_fin_with(&[], 6, 0, Some(ws)) {
                         self.commit_fin(fid, false);
                     }
                 }
                 ScriptOp::DeleteCluster(n) => {
                     let ws: Vec<(Key, Option<Val>)> = self.committed.keys().filter(|k| k[0] == 0xC3 && k[1] == 0x5A).take(n).map(|k| (*k, None)).collect();
-                    if let Some(fid) = self.session_writes(&[], &ws) {
+                    if let Some(fid) = self.session_to_fin_with(&[], 6, 0, Some(ws)) {
                         self.commit_fin(fid, false);
                     }
                 }
@@ -1486,9 +1486,25 @@ pub fn run(seed: u64, cases: usize, out: &mut Sink, focus: &str, nops: usize, bi
         let dir = format!("/dev/shm/nomt-verif-db-{pid}-{seed}-{case}");
         out.mark_case(format!("case {case} focus={focus} cfg: {}", cfg.describe()));
         let start = out.ops.len();
-        let n = r.range(nops / 2, nops);
+        let mut n = r.range(nops / 2, nops);
         let mut e = Engine::new(r, out, cfg, dir, big);
-        if scale == 1 && case % 2 == 1 {
+        e.script = script_for(focus);
+        if let Some(sc) = &e.script {
+            n = sc.len();
+        }
+        if scale == 1 && case % 4 == 3 && e.script.is_none() {
+            // elision universe: 34 keys under one 12..17-bit prefix (a sub-trie two page levels below the root
+            // page) plus a few outsiders: batches and deletions move the sub-trie's leaf count back and forth
+            // across the page-elision threshold (20), so pages get materialised, elided and re-materialised
+            e.dense = true;
+            let base = e.rng.bytes32();
+            let d = e.rng.range(12, 17);
+            let mut u: Vec<Key> = (0..34).map(|_| with_prefix(&mut e.rng, &base, d)).collect();
+            for _ in 0..4 {
+                u.push(e.rng.bytes32());
+            }
+            e.pool = u;
+        } else if scale == 1 && case % 2 == 1 && e.script.is_none() {
             // dense universe: 14 keys in two clusters (some pairs diverging only near the end)
             e.dense = true;
             let mut u: Vec<Key> = Vec::new();
